@@ -1,5 +1,113 @@
-From ZV Require Import Lib.Base Model.Watcher.
-(** intermediate: the faithful model of the unrepaired versionFromPath panics *)
-Theorem C19_version_from_path_no_panic_refuted : exists p, version_from_path p = Panic 1.
-Proof. exists [120; 95; 46; 122]%N. vm_compute. reflexivity. Qed.
-Print Assumptions C19_version_from_path_no_panic_refuted.
+(** C19 — shard reloads converge to disk and every snapshot is consistent (model half; the data-race /
+    use-after-unmap half is runtime behaviour and is NOT covered by these theorems: see NOTES.md).
+    Model: Model/Watcher.v; proofs: Proofs/Watcher.v.
+    [sel_pure cur next L] is the set of files scan keeps for listing L, [nv e] = versionFromPath of e's path,
+    [scan_pure] is scan's result ([C19_scan_never_panics] shows scan = Ok scan_pure on EVERY input). *)
+From ZV Require Import Lib.Base Model.Watcher Proofs.Watcher.
+
+(** versionFromPath and DirectoryWatcher.scan terminate without panic on every path / listing / state
+    (after fix 5288900; before it C19_version_from_path_no_panic_refuted held: "x_.z" panicked). *)
+Theorem C19_scan_never_panics : forall (cur next : Z) (L : list fent) (st : wstate) (p : path),
+  version_from_path p = Ok (vfp p) /\ scan cur next L st = Ok (scan_pure cur next L st).
+Proof. intros. split; [apply version_from_path_ok|apply scan_ok]. Qed.
+Print Assumptions C19_scan_never_panics.
+
+(** scan selects exactly the newest supported format version per shard name among the *.zoekt files. *)
+Theorem C19_selects_newest_supported : forall (cur next : Z) (L : list fent) (e : fent),
+  In e (sel_pure cur next L) <->
+  In e (globbed L) /\ (0 <= snd (nv e))%Z /\ (snd (nv e) = 0%Z \/ supported cur next (snd (nv e)) = true) /\
+  (forall e', In e' (globbed L) -> fst (nv e') = fst (nv e) -> supported cur next (snd (nv e')) = true ->
+              (snd (nv e') <= snd (nv e))%Z).
+Proof. exact selected_spec. Qed.
+Print Assumptions C19_selects_newest_supported.
+
+(** Convergence, at EVERY scan of ANY history of directory listings starting from the empty watcher, as
+    long as a file never changes content while keeping its effective mtime ([chain_ok] = unique paths +
+    [discriminates] between consecutive listings): after scanning the last listing L the loaded map is
+    duplicate-free, holds only selected files, holds every loadable selected file with its CURRENT content
+    (sidecar mtime respected through eff_mtime), and a second scan of L is a no-op (nothing dropped, nothing
+    loaded, nothing published, state unchanged). *)
+Theorem C19_scan_converges : forall (cur next : Z) (Ls : list (list fent)) (L : list fent),
+  chain_ok cur next [] (Ls ++ [L]) ->
+  let st := scans cur next w_init (Ls ++ [L]) in
+  NoDup (keys (w_loaded st)) /\
+  (forall k, In k (keys (w_loaded st)) -> In k (map f_path (sel_pure cur next L))) /\
+  (forall e, In e (sel_pure cur next L) -> f_loadable e = true -> lookup (f_path e) (w_loaded st) = Some (f_content e)) /\
+  scan cur next L st = Ok (mkOut [] [] [] st).
+Proof. exact history_converges. Qed.
+Print Assumptions C19_scan_converges.
+
+(** One-step form: from any state satisfying the invariant in which "recorded with the current effective
+    mtime" implies "loaded with the current content" ([fresh]), one scan loads every loadable selected file
+    with its current content. *)
+Theorem C19_one_scan_loads_current : forall (cur next : Z) (L : list fent) (st : wstate),
+  NoDup (map f_path L) -> forall e, fresh cur next L st -> In e (sel_pure cur next L) -> f_loadable e = true ->
+  lookup (f_path e) (w_loaded (o_state (scan_pure cur next L st))) = Some (f_content e).
+Proof. exact scan_loads_current. Qed.
+Print Assumptions C19_one_scan_loads_current.
+
+Theorem C19_rescan_is_noop : forall (cur next : Z) (L : list fent) (st : wstate),
+  NoDup (map f_path L) ->
+  let o := scan_pure cur next L st in
+  scan_pure cur next L (o_state o) = mkOut [] [] [] (o_state o).
+Proof. exact rescan_noop. Qed.
+Print Assumptions C19_rescan_is_noop.
+
+(** Snapshot consistency, with NO assumption on mtimes or loadability: every value ever published to
+    `ranked` (what a search takes with getLoaded) while scanning any history has one entry per shard key,
+    only files selected by the current scan, hence at most one format version per shard name. *)
+Theorem C19_snapshot_consistent : forall (cur next : Z) (Ls : list (list fent)) (L : list fent) (s : list (path * N)),
+  (forall L', In L' (Ls ++ [L]) -> NoDup (map f_path L')) ->
+  In s (o_snaps (scan_pure cur next L (scans cur next w_init Ls))) ->
+  NoDup (keys s) /\
+  (forall k, In k (keys s) -> exists e, In e (sel_pure cur next L) /\ f_path e = k) /\
+  (forall e1 e2, In e1 (sel_pure cur next L) -> In e2 (sel_pure cur next L) ->
+                 In (f_path e1) (keys s) -> In (f_path e2) (keys s) ->
+                 fst (nv e1) = fst (nv e2) -> snd (nv e1) = snd (nv e2)).
+Proof. exact snapshot_consistent. Qed.
+Print Assumptions C19_snapshot_consistent.
+
+(** The blind spot (known finding stale:equal-mtime): without [discriminates] convergence fails — a file
+    replaced with the same effective mtime keeps its OLD content loaded however often scan runs. *)
+Theorem C19_equal_mtime_stale_refuted :
+  let st := scans 16 17 w_init [stale_L1; stale_L2; stale_L2; stale_L2] in
+  lookup [97; 46; 122; 111; 101; 107; 116]%N (w_loaded st) = Some 1%N /\
+  In (mkF [97; 46; 122; 111; 101; 107; 116]%N 5%Z 2%N true) (sel_pure 16 17 stale_L2).
+Proof. exact equal_mtime_stale. Qed.
+Print Assumptions C19_equal_mtime_stale_refuted.
+
+(** ---- non-vacuity *)
+Definition s (l : list N) := l.
+Definition pA16 : path := [97; 95; 118; 49; 54; 46; 48; 46; 122; 111; 101; 107; 116]%N.   (* a_v16.0.zoekt *)
+Definition pA17 : path := [97; 95; 118; 49; 55; 46; 48; 46; 122; 111; 101; 107; 116]%N.   (* a_v17.0.zoekt *)
+Definition pA18 : path := [97; 95; 118; 49; 56; 46; 48; 46; 122; 111; 101; 107; 116]%N.   (* a_v18.0.zoekt *)
+Definition pB16 : path := [98; 95; 118; 49; 54; 46; 48; 46; 122; 111; 101; 107; 116]%N.   (* b_v16.0.zoekt *)
+Definition exL1 : list fent := [mkF pA16 10 1 true; mkF pB16 10 2 true; mkF (pB16 ++ suffix_meta) 12 0 false].
+Definition exL2 : list fent := [mkF pA16 10 1 true; mkF pA17 20 3 true; mkF pA18 21 4 true; mkF pB16 30 5 true].
+Definition exL3 : list fent := [mkF pA17 20 3 true; mkF pB16 40 0 false].
+
+Example ex_vfp : version_from_path pA17 = Ok ([97]%N, 17%Z).
+Proof. vm_compute. reflexivity. Qed.
+Example ex_vfp_underscore_dot : version_from_path [120; 95; 46; 122]%N = Ok ([120; 95; 46; 122]%N, 0%Z).
+Proof. vm_compute. reflexivity. Qed.
+
+(** the history hypothesis of C19_scan_converges is satisfiable by a history with an upgrade (v16 -> v17,
+    v18 ignored), a replacement with a new mtime, a sidecar, a deletion and an unloadable file *)
+Ltac nodup_paths := simpl; repeat (constructor; [simpl; intuition discriminate|]); constructor.
+Ltac discr_listings :=
+  intros e0 e H0 H Hp Hm; vm_compute in H0; vm_compute in H;
+  repeat match goal with Hx : _ \/ _ |- _ => destruct Hx as [Hx|Hx] end;
+  try contradiction; subst; try discriminate Hp; try discriminate Hm; split; reflexivity.
+Example ex_chain_ok : chain_ok 16 17 [] ([exL1; exL2] ++ [exL3]).
+Proof.
+  simpl. split; [nodup_paths|]. split; [discr_listings|].
+  split; [nodup_paths|]. split; [discr_listings|].
+  split; [nodup_paths|]. split; [discr_listings|exact I].
+Qed.
+Example ex_history :
+  map (fun L => let o := scan_pure 16 17 L w_init in (length (o_load o))) [exL1] = [2] /\
+  (let st1 := scans 16 17 w_init [exL1] in
+   let o2 := scan_pure 16 17 exL2 st1 in
+   (o_drop o2, o_load o2, map (fun sn => map snd sn) (o_snaps o2)) = ([pA16], [pA17; pB16], [[2%N]; [5%N; 3%N]])) /\
+  w_loaded (scans 16 17 w_init [exL1; exL2; exL3]) = [(pB16, 5%N); (pA17, 3%N)].
+Proof. vm_compute. repeat split. Qed.
